@@ -1,4 +1,5 @@
 import PhyloModel.Props.C09
+import PhyloModel.Props.C09Pub
 #print axioms C09.root_path
 #print axioms C09.foldl_none
 #print axioms C09.foldl_some
@@ -7,3 +8,11 @@ import PhyloModel.Props.C09
 #print axioms C09.same_node
 #print axioms C09.dead_node_rejected
 #print axioms C09.symmetric
+#print axioms C09.isLive_false
+#print axioms C09.path_ok_or_err
+#print axioms C09.commonAncestorPub_live
+#print axioms C09.distancePub_live
+#print axioms C09.commonAncestorPub_refuses_first
+#print axioms C09.distancePub_refuses_first
+#print axioms C09.commonAncestorPub_refuses_second
+#print axioms C09.distancePub_refuses_second
